@@ -951,7 +951,8 @@ namespace simpl
   // -------------------------------------------------------------------------------------
   // scenario "acc": accuracy on a problem with a known solution (C08)
   //   acc L csc lu ncells table rtol dt h_start k1[ncells] k2[ncells] a0[ncells]
-  // The chain A -> B -> C with per-cell rate constants k1 != k2 (well separated), B(0) = C(0) = 0.
+  // The chain A -> B -> C with per-cell rate constants k1 != k2 (well separated), B(0) = C(0) = 0; with a0 < 0 the chain
+  // starts empty and is fed by an emission -> A of rate -a0.
   //   Rosenbrock: a Converged result differs from the Bateman solution by a modest multiple of (atol + rtol |y|)
   //               per accepted step;
   //   backward Euler: the result is the composition of the closed-form implicit-Euler maps for the step sizes the
@@ -990,11 +991,22 @@ namespace simpl
     r2.reactants = { { 2, false } };
     r2.products = { std::make_tuple(3, false, 1.0) };
     m.rxns = { r1, r2 };
+    // a0 < 0 in the first cell: the same chain fed by an emission (a reaction without reactants) of rate -a0 from an
+    // empty state: every concentration starts at exactly zero
+    const bool source = a0[0] < 0;
+    if (source)
+    {
+      Rxn r0;
+      r0.products = { std::make_tuple(1, false, 1.0) };
+      m.rxns = { r0, r1, r2 };
+    }
     for (std::size_t i = 0; i < pb.ncells; ++i)
     {
-      pb.y0.push_back(a0[i]);
+      pb.y0.push_back(source ? 0.0 : a0[i]);
       pb.y0.push_back(0.0);
       pb.y0.push_back(0.0);
+      if (source)
+        pb.k.push_back(std::fabs(a0[i]));
       pb.k.push_back(k1[i]);
       pb.k.push_back(k2[i]);
     }
@@ -1017,12 +1029,12 @@ namespace simpl
 #ifdef KIND_BE
       // the step sizes: h_start (or the whole interval), doubled after two successes, clipped to the remainder
       long double H = pb.h_start == 0.0 ? t : std::min<long double>(pb.h_start, t), now = 0;
-      long double A = A0, B = 0, C = 0;
+      long double A = source ? 0.0L : A0, B = 0, C = 0;
       std::size_t succ = 0;
       while (now < t)
       {
         // (I - H J) y_new = y   for J = [[-k1,0,0],[k1,-k2,0],[0,k2,0]]
-        long double An = A / (1 + H * K1);
+        long double An = (A + (source ? H * std::fabs(A0) : 0.0L)) / (1 + H * K1);
         long double Bn = (B + H * K1 * An) / (1 + H * K2);
         long double Cn = C + H * K2 * Bn;
         A = An; B = Bn; C = Cn;
@@ -1037,9 +1049,19 @@ namespace simpl
       ea = A; eb = B; ec = C;
       const long double allow_factor = 1.0e4L;   // Newton on a linear problem is exact up to the convergence test
 #else
-      ea = A0 * std::exp(-K1 * t);
-      eb = A0 * K1 / (K2 - K1) * (std::exp(-K1 * t) - std::exp(-K2 * t));
-      ec = A0 - ea - eb;
+      if (source)
+      {
+        const long double S = std::fabs(A0);
+        ea = S / K1 * (1 - std::exp(-K1 * t));
+        eb = S * ((1 - std::exp(-K2 * t)) / K2 - (std::exp(-K1 * t) - std::exp(-K2 * t)) / (K2 - K1));
+        ec = S * t - ea - eb;
+      }
+      else
+      {
+        ea = A0 * std::exp(-K1 * t);
+        eb = A0 * K1 / (K2 - K1) * (std::exp(-K1 * t) - std::exp(-K2 * t));
+        ec = A0 - ea - eb;
+      }
       const long double allow_factor = 10.0L + 1.0L * (long double)res.stats_.accepted_;
 #endif
       const long double exact[3] = { ea, eb, ec };
@@ -1068,6 +1090,49 @@ namespace simpl
     }
   }
 
+  // -------------------------------------------------------------------------------------
+  // scenario "hstart": the first attempt of a built solver uses the configured h_start (C07)
+  //   hstart L csc lu dt
+  // A -> B with a rate constant of 1e-6 /s: whatever the step size, the error norm is far below 1.  With h_start = dt
+  // (h_max left at its default "no limit") the Solve of dt seconds is one attempt, accepted.
+  // -------------------------------------------------------------------------------------
+  inline void scenario_hstart(Toks& tk, Out& out)
+  {
+    Config c;
+    c.L = (int)tk.i();
+    c.csc = tk.i() != 0;
+    c.lu = (int)tk.i();
+    c.reorder = true;
+    c.order = { 0, 1 };
+    Problem pb;
+    pb.ncells = 1;
+    pb.table = 1;
+    pb.rtol = 1.0e-6;
+    pb.dt = tokd(tk);
+    pb.h_start = pb.dt;
+    pb.nsteps = 1;
+    Mech m;
+    m.names = { 1, 2 };
+    m.atol = { -1.0, -1.0 };
+    Rxn r1;
+    r1.reactants = { { 1, false } };
+    r1.products = { std::make_tuple(2, false, 1.0) };
+    m.rxns = { r1 };
+    pb.y0 = { 1.0, 0.0 };
+    pb.k = { 1.0e-6 };
+    Outcome o = run(m, c, pb);
+    if (!o.error.empty())
+    {
+      out.tok(o.error);
+      return;
+    }
+    const auto& res = o.results[0];
+    out.tok(state_name(res.state_));
+    out.tok("NOTE_steps=" + std::to_string(res.stats_.number_of_steps_) + "_accepted=" + std::to_string(res.stats_.accepted_));
+    if (res.state_ != micm::SolverState::Converged || res.stats_.accepted_ != 1 || res.stats_.rejected_ != 0)
+      out.tok("ORACLE_STEP_FIRST_ATTEMPT_NOT_H_START");
+  }
+
   inline int main_impl(const char* fam)
   {
     return vio::run({ { fam,
@@ -1082,6 +1147,8 @@ namespace simpl
                             scenario_reuse(tk, out);
                           else if (sc == "acc")
                             scenario_acc(tk, out);
+                          else if (sc == "hstart")
+                            scenario_hstart(tk, out);
                           else
                             out.tok("UNKNOWN_SCENARIO");
                         } } });
